@@ -356,6 +356,9 @@ type workerResult struct {
 
 const caseWatchdog = 300 * time.Second
 
+// confirmWatchdog applies when a single case is re-run alone (confirmation of a hang, replay)
+const confirmWatchdog = 150 * time.Second
+
 // runWorker runs one (config, shard) worker to completion, restarting it after crashes.
 func runWorker(p Property, cfg Config, tier string, shard, nshards int, deadline time.Time, only string) workerResult {
 	var res workerResult
@@ -401,7 +404,11 @@ func runWorker(p Property, cfg Config, tier string, shard, nshards int, deadline
 					return
 				case <-tk.C:
 					mu.Lock()
-					if inCase && time.Since(lastStart) > caseWatchdog {
+					wd := caseWatchdog
+					if only != "" {
+						wd = confirmWatchdog
+					}
+					if inCase && time.Since(lastStart) > wd {
 						hung = true
 						cmd.Process.Signal(syscall.SIGKILL)
 					}
@@ -732,7 +739,10 @@ func checkMain(p Property, tier string) int {
 		}
 		v := vs[0]
 		confirmed := 0
-		const reruns = 5
+		reruns := 5
+		if strings.HasPrefix(v.Key, "hang@") {
+			reruns = 2 // each confirmation of a hang costs a full watchdog period
+		}
 		for r := 0; r < reruns; r++ {
 			rr := runWorker(p, configs[v.Config], tier, 0, 1, time.Time{}, v.Case)
 			for _, x := range rr.viols {
